@@ -3,13 +3,14 @@ import DirectVerif.Model.MaskGeom
 # C06 — `crop_corner` of `VariableDensityPoissonMaskFunc.poisson` and the ACS disc
 
 ```
-mask = mask | centered_disk_mask((num_rows, num_cols), center_fraction)
 if self.crop_corner:
     mask *= r < 1            # r = sqrt(x² + y²), x = |i − rows/2| / max, y = |j − cols/2| / max
+mask = mask | centered_disk_mask((num_rows, num_cols), center_fraction)
 ```
-The crop is applied *after* the disc has been OR-ed in, while `return_acs=True` returns the whole disc: when the disc
-reaches beyond the inscribed ellipse (radius > min(rows, cols) / 2) the ACS is not a subset of the mask
-(`Props/C06.lean`: `poisson_crop_corner_current_violates`).  `max |i − rows/2| = rows/2` (attained at `i = 0`), hence
+(repaired order, commit 2480376).  The pinned tree applied the crop *after* the disc had been OR-ed in, while
+`return_acs=True` returns the whole disc: when the disc reaches beyond the inscribed ellipse
+(radius > min(rows, cols) / 2) the ACS was not a subset of the mask
+(`Props/C06.lean`: `poisson_crop_corner_pinned_violates`).  `max |i − rows/2| = rows/2` (attained at `i = 0`), hence
 `r < 1  ⇔  (2i − rows)²·cols² + (2j − cols)²·rows² < rows²·cols²` — integer arithmetic (compared with the float
 expression on every shape up to 80 × 80 by the harness).
 -/
@@ -23,14 +24,20 @@ def inEllipse (rows cols i j : Nat) : Bool :=
 def ellipse (rows cols : Nat) : List Bool :=
   (List.range (rows * cols)).map fun k => inEllipse rows cols (k / cols) (k % cols)
 
-/-- one frame as the code computes it now: `(raster ∨ disc) ∧ ellipse` -/
-def poissonFrame (crop : Bool) (rows cols : Nat) (radius : Int) (raster : List Bool) : List Bool :=
+/-- one frame as the pinned tree computed it: `(raster ∨ disc) ∧ ellipse` -/
+def poissonFramePinned (crop : Bool) (rows cols : Nat) (radius : Int) (raster : List Bool) : List Bool :=
   let m := orL raster (centeredDisk rows cols radius)
   if crop then andL m (ellipse rows cols) else m
 
-/-- the minimal repair: crop the rasterised pattern, then OR the disc -/
-def poissonFrameRepaired (crop : Bool) (rows cols : Nat) (radius : Int) (raster : List Bool) : List Bool :=
+/-- one frame as the code computes it now: crop the rasterised pattern, then OR the disc -/
+def poissonFrame (crop : Bool) (rows cols : Nat) (radius : Int) (raster : List Bool) : List Bool :=
   orL (if crop then andL raster (ellipse rows cols) else raster) (centeredDisk rows cols radius)
+
+/-- the frame assembly selected by the order of the three steps in the bisection loop, as the translator reads it -/
+def frameOfOrder (order : List String) : Bool → Nat → Nat → Int → List Bool → List Bool :=
+  if order = ["raster", "crop", "disc"] then poissonFrame
+  else if order = ["raster", "disc", "crop"] then poissonFramePinned
+  else fun _ _ _ _ _ => []
 
 /-- is every true entry of `a` a true entry of `b`? -/
 def subsetB (a b : List Bool) : Bool := (List.range a.length).all fun k => !(a.getD k false) || b.getD k false
